@@ -552,6 +552,17 @@ func (t *Topic) handleTopicTermination(sd *shutDown) {
 			msg.sess.queueOut(ErrLockedReply(msg, now))
 		}
 	}
+	// Pending {get}, {set}, {del} and {pub} requests will not be processed either.
+	for len(t.meta) > 0 {
+		if msg := <-t.meta; msg.init && msg.sess != nil {
+			msg.sess.queueOut(ErrLockedReply(msg, now))
+		}
+	}
+	for len(t.clientMsg) > 0 {
+		if msg := <-t.clientMsg; msg.init && msg.sess != nil && msg.Pub != nil {
+			msg.sess.queueOut(ErrLockedReply(msg, now))
+		}
+	}
 
 	usersRegisterTopic(t, false)
 
